@@ -36,6 +36,8 @@ import FV.Model.IdlActions
 import FV.Generated.Grammar
 import FV.Proofs.Peg
 import FV.Proofs.PegIdl
+import FV.Proofs.PegGaps
+import FV.Proofs.PegTypes
 
 namespace FV.C10
 open FV.Peg FV.Act FV.Syn FV.Generated FV.PegIdl
@@ -162,53 +164,55 @@ theorem c10_int_literal (sign : List Char) (hs : sign = [] ∨ sign = ['-'] ∨ 
 
 /-! ### types -/
 
-/-- Rendering of a type that is not a container and has no annotations: its name. -/
-def renderSimple : Ty → Option (List Char)
-  | .base n [] => some n
-  | .named n => some n
-  | _ => none
+/-- Round trip of `FieldType` for EVERY type without annotations — base types, named types and
+arbitrarily nested `list`/`set`/`map` — in every white-space styling of its brackets (`STy`: the
+type plus the white space written after `<`, before `,`/`>` and after `,`): parsing the rendered
+text, followed by any separator (`rest` does not start with an identifier character, `<`, `(`,
+white space or a comment), consumes exactly the text, and the actions return the type (`erase`).
+By induction over the type; fuel bound `cost s + 70`, where `cost` adds 30 per list/set, 40 per
+map, the lengths of the names and twice the lengths of the white-space runs.
+Hypothesis `Ok`: base names are the grammar's eight, named types are identifiers of which no type
+keyword is a prefix (the negation of the recorded finding keyword-prefix-identifier; without it the
+statement is false: `c10_type_roundtrip_counterexample`), the `w`s are white space.
+Not covered here (correspondence only): type annotations (rule TypeAnnotations) and comments after a
+base or container type inside the brackets. -/
+theorem c10_type_roundtrip (s : STy) (hok : s.Ok) (rest : List Char) (hr : SepOk rest) (ht : TokHead rest)
+    (F : Nat) (hF : s.cost + 70 ≤ F) :
+    ∃ t, parse F grammar "FieldType" (s.render ++ rest) = .ok t rest ∧ evTy (tyFuel t) t = some s.erase := by
+  obtain ⟨t, mid, h1, hmid, htx, hev⟩ := fieldType_styled s hok [] rest (IsGap.nil _) (by simpa using hr) hr ht
+  have hm : mid = rest := by rcases hmid with h | h <;> simpa using h
+  subst hm
+  simp only [List.nil_append] at h1 htx
+  refine ⟨t, h1 F (by simpa using hF), ?_⟩
+  have hl : (textOf t).length = s.render.length := by rw [htx, consumed_append]
+  have := hev ((textOf t).length + 1) (by rw [hl]; exact Nat.le_succ_of_le s.depth_le_render)
+  simpa [tyFuel] using this
 
-/-- A base type name of the grammar, or an identifier that has none of the grammar's type
-keywords as a prefix of the text it starts (the hypothesis that excludes the recorded finding
-keyword-prefix-identifier). -/
-def SimpleTypeOk (ty : Ty) (rest : List Char) : Prop :=
-  match ty with
-  | .base n [] => n ∈ baseNames
-  | .named n => IdentShape n ∧ NoTypeKeywordPrefix (n ++ rest)
-  | _ => False
+/-- Every annotation-free type has a styling (the canonical one, without white space), so the
+round trip covers all of them. -/
+theorem c10_type_roundtrip_canonical (ty : Ty) (hna : NoAnns ty) (hok : (STy.canon ty).Ok) (rest : List Char)
+    (hr : SepOk rest) (ht : TokHead rest) (F : Nat) (hF : (STy.canon ty).cost + 70 ≤ F) :
+    ∃ t, parse F grammar "FieldType" ((STy.canon ty).render ++ rest) = .ok t rest ∧ evTy (tyFuel t) t = some ty := by
+  have := c10_type_roundtrip (STy.canon ty) hok rest hr ht F hF
+  rwa [STy.erase_canon ty hna] at this
 
-/-- Round trip of `FieldType` for every base type name and every named type (any identifier,
-also qualified `inc.Name`), followed by `>`, `,` or the end of the text: parsing the rendered type
-consumes exactly it and the actions give the type back (fuel `|text| + 40` suffices).
-PARTIAL: container types (arbitrary nesting, white space inside the brackets) and annotations are
-covered by the correspondence of suite c10 and by `c10_type_nested_example`, not by this theorem;
-without the keyword hypothesis the statement is false (`c10_type_roundtrip_counterexample`). -/
-theorem c10_type_roundtrip_partial (ty : Ty) (txt rest : List Char) (hr : renderSimple ty = some txt)
-    (hok : SimpleTypeOk ty rest) (hstop : StopHead rest) (F : Nat) (hF : txt.length + 40 ≤ F) :
-    ∃ t, parse F grammar "FieldType" (txt ++ rest) = .ok t rest ∧ evTy (tyFuel t) t = some ty := by
-  cases ty with
-  | base n anns =>
-    cases anns with
-    | nil =>
-      simp only [renderSimple, Option.some.injEq] at hr
-      subst hr
-      exact ⟨baseTree n, fieldType_base n hok rest hstop F (by omega), evTy_baseTree n _⟩
-    | cons a t => simp [renderSimple] at hr
-  | named n =>
-    simp only [renderSimple, Option.some.injEq] at hr
-    subst hr
-    obtain ⟨⟨c, s, rfl, hc, hs⟩, hno⟩ := hok
-    obtain ⟨t, h1, h2⟩ := fieldType_named c s rest hc hs hno hstop F (by simp at hF; omega)
-    exact ⟨t, h1, h2 _⟩
-  | list e a => simp [renderSimple] at hr
-  | set e a => simp [renderSimple] at hr
-  | map k v a => simp [renderSimple] at hr
+/-- White space inside the brackets is invisible: two stylings of the same type parse to the same value. -/
+theorem c10_type_ws_invisible (s1 s2 : STy) (h1 : s1.Ok) (h2 : s2.Ok) (he : s1.erase = s2.erase) (rest : List Char)
+    (hr : SepOk rest) (ht : TokHead rest) (F : Nat) (hF1 : s1.cost + 70 ≤ F) (hF2 : s2.cost + 70 ≤ F) :
+    ∃ t1 t2, parse F grammar "FieldType" (s1.render ++ rest) = .ok t1 rest ∧ parse F grammar "FieldType" (s2.render ++ rest) = .ok t2 rest ∧
+      evTy (tyFuel t1) t1 = evTy (tyFuel t2) t2 := by
+  obtain ⟨t1, p1, e1⟩ := c10_type_roundtrip s1 h1 rest hr ht F hF1
+  obtain ⟨t2, p2, e2⟩ := c10_type_roundtrip s2 h2 rest hr ht F hF2
+  exact ⟨t1, t2, p1, p2, by rw [e1, e2, he]⟩
 
-/-- The hypotheses are satisfiable: `base.Item` before `>` is a named type the theorem applies to. -/
-example : SimpleTypeOk (.named "base.Item".toList) ['>'] ∧ StopHead ['>'] := by
-  refine ⟨⟨⟨'b', "ase.Item".toList, rfl, by decide, by decide⟩, ?_⟩, ?_⟩
-  · unfold NoTypeKeywordPrefix; decide
-  intro c r h; simp at h; exact Or.inl h.1.symm
+/-- The hypotheses are satisfiable: `list< base.Item>` before `)`. -/
+example : (STy.list [' '] (.named "base.Item".toList) []).Ok ∧ SepOk [')'] ∧ TokHead [')'] := by
+  refine ⟨⟨?_, ⟨⟨'b', "ase.Item".toList, rfl, by decide, by decide⟩, ?_⟩, ?_⟩, ?_, ?_⟩
+  · intro c h; simp at h; subst h; decide
+  · unfold NoKw; decide
+  · intro c h; simp at h
+  · intro c r h; simp at h; obtain ⟨rfl, _⟩ := h; decide
+  · intro c r h; simp at h; obtain ⟨rfl, _⟩ := h; decide
 
 /-! ### types: concrete instances evaluated by the kernel -/
 
